@@ -29,7 +29,7 @@ def shards(pid, tier, seed):
         return [{"kind": k, "n": 400} for k in kinds] + [{"kind": "toggle_real", "n": 30}]
     out = []
     for k in kinds:
-        out += [{"kind": k, "n": 25000} for _ in range(3)]
+        out += [{"kind": k, "n": 60000} for _ in range(3)]
     out.append({"kind": "toggle_real", "n": 2000})
     return out
 
